@@ -486,6 +486,29 @@ def run(ctx):
         for oname, what in compare(out0, out1, c, 1e-6):
             ctx.violation('scale/%s/%s' % (name, oname), '%s, output %s: %s' % (name, oname, what), rep)
 
+    # ---------------- order selection must not see the amplitude: every criterion, white and coloured records (the decision at the FIRST
+    # stage compares the order-1 value with the order-0 value: near-white data sit on that boundary), scalars at both ends of the range
+    for it in range(6 * ctx.q(6, 24)):
+        crit = ['AIC', 'AICc', 'KIC', 'AKICc', 'FPE', 'MDL'][it % 6]
+        cplx = bool((it // 6) % 2); N = int(rng.integers(48, 97))
+        x, kind = E.gen_data(rng, N, cplx, ['noise', 'noise', 'ar'][(it // 12) % 3])
+        x = x / np.sqrt(np.mean(np.abs(x) ** 2))
+        cfg = {'order': int(rng.integers(4, 11)), 'criteria': crit}
+        mag = [1e3, 1e-3, 30.0, 1e-1][(it // 6) % 4]
+        c = mag * (np.exp(1j * rng.uniform(0, 2 * np.pi)) if cplx else 1.0)
+        tag = 'complex' if cplx else 'real'
+        ctx.count('search/order-selection/%s/%s/%s' % (crit, tag, kind))
+        ctx.case(('fncrit', crit, x.tobytes(), str(c), cfg['order']), nontrivial=True,
+                 sample={'estimator': 'arburg', 'cfg': cfg, 'N': N, 'datatype': tag, 'c': str(c), 'kind': kind} if it < 2 else None)
+        rep = {'form': 'function', 'estimator': 'arburg', 'cfg': cfg, 'x': vlib.hexv(np.asarray(x, dtype=complex)), 'datatype': tag,
+               'c': [float(np.real(c)).hex(), float(np.imag(c)).hex()]}
+        try:
+            out0 = fn_outputs('arburg', x, cfg); out1 = fn_outputs('arburg', c * x, cfg)
+        except Exception:
+            ctx.count('search/order-selection/raised'); continue
+        for oname, what in compare(out0, out1, c, 1e-6):
+            ctx.violation('scale/arburg/%s' % oname, 'arburg (criteria=%s), output %s: %s' % (crit, oname, what), rep)
+
     # ---------------- large orders (a third of the record) at the ends of the amplitude range: overflow / underflow of products
     BIG = ['arburg', 'aryule', 'arcovar', 'modcovar', 'minvar', 'music', 'ev']
     for it in range(ctx.q(2, 8) * len(BIG)):
